@@ -104,6 +104,18 @@ CHECKS = {
             "ordering of FEAT / LDAP attribute lists); a disagreement counts only if it reproduces in a second fresh process.",
             "TLA+ spec + TLC exhaustive interleavings, schedule replay into the real server, solo-run oracle from the specification",
             "DESIGN.md §3 C03"),
+    "C12": ("model_checking",
+            "Auth.tla models credential sets (with ssh's wildcard and ldap's anonymous bind), attempts, gated operations and "
+            "reconnects; TLC checks SuccessIffConfigured, GateHolds and EveryAttemptLogged as action properties for every "
+            "credential set of size <= 1 x all 2-step sequences exhaustively and for sets of size <= 3 x 5-step sequences by "
+            "simulation, per service; the generated sequences are replayed against the real ssh-simulator (x/crypto ssh client, "
+            "password retries on one connection), ldap (hand-built BER bind/add, names also given as DNs) and ftp (USER/PASS, PWD as "
+            "gated probe) through the real server; per-attempt outcome, gate refusals and the recorded user/password of every "
+            "attempt are compared with the specification.",
+            "Users {root, admin, guest, ''} x passwords {root, admin, 123456, ''} (ftp: around its built-in anonymous account); "
+            "ssh gated operations are not part of the property; sequences are sampled per credential set by seed.",
+            "TLA+ spec + TLC exhaustive/simulate generation, replay into the real services",
+            "DESIGN.md §3 C12"),
 }
 
 NOT_YET = "check not built yet in this session (see DESIGN.md §10 for the order of construction)"
